@@ -11,7 +11,10 @@ real pool round trip.
 import io
 import itertools
 import multiprocessing
+import os
 import pickle
+import signal
+import subprocess
 import sys
 import threading
 import time
@@ -70,6 +73,56 @@ def gated_task(index, payload):
         raise ValueError(f"injected failure in task {index}")
     DONE[index].set()
     return (index, payload * 2)
+
+
+def dying_task(index, fail_at, kind):
+    """a worker body that loses its process while holding a task: killed from outside (as the kernel does under memory pressure)
+    or leaving through SystemExit"""
+    if index == fail_at:
+        if kind == "killed":
+            os.kill(os.getpid(), signal.SIGKILL)
+        elif kind == "exit":
+            sys.exit(3)
+    return index * index
+
+
+LOST_WORKER_CHILD = r"""
+import sys, logging
+logging.disable(logging.CRITICAL)
+from mc.props import c18
+from antismash.common.subprocessing import parallel_function
+n, k, fail_at, kind = int(sys.argv[1]), int(sys.argv[2]), int(sys.argv[3]), sys.argv[4]
+try:
+    print("RESULT", parallel_function(c18.dying_task, [[i, fail_at, kind] for i in range(n)], cpus=k), flush=True)
+except BaseException as err:
+    print("ERROR", type(err).__name__, flush=True)
+"""
+LOST_WORKER_WAIT = 6     # seconds; a healthy batch of these tasks returns in well under one
+
+
+def check_lost_worker(n, k, fail_at, kind):
+    """the real helper in a process of its own (a call that never returns cannot be abandoned inside this one): either the list a
+    sequential run gives or an error is acceptable, a call that is still blocked after LOST_WORKER_WAIT seconds is neither"""
+    env = dict(os.environ)
+    proc = subprocess.Popen([sys.executable, "-c", LOST_WORKER_CHILD, str(n), str(k), str(fail_at), kind], env=env,
+                            stdout=subprocess.PIPE, stderr=subprocess.DEVNULL, text=True, start_new_session=True)
+    try:
+        out, _ = proc.communicate(timeout=LOST_WORKER_WAIT)
+    except subprocess.TimeoutExpired:
+        try:
+            os.killpg(proc.pid, signal.SIGKILL)
+        except ProcessLookupError:
+            pass
+        proc.communicate()
+        return [("worker-lost-call-never-returns", f"n={n} k={k}: worker of task {fail_at} {kind}; neither a list nor an error after {LOST_WORKER_WAIT}s")]
+    line = (out.strip().splitlines() or [""])[-1]
+    if line.startswith("ERROR"):
+        return []
+    if line.startswith("RESULT"):
+        if fail_at < 0 and line == f"RESULT {[i * i for i in range(n)]}":
+            return []
+        return [("worker-lost-but-a-list-returned", f"n={n} k={k} task {fail_at} {kind}: {line}")]
+    return [("lost-worker-harness-output", f"unexpected child output {out[-200:]!r} (exit {proc.returncode})")]
 
 
 def plain_task(index, payload):
@@ -477,6 +530,7 @@ def shards(tier):
     for n, k, bound in grid:
         out.append(["schedules", n, k, bound])
     out.append(["faults", fault_grid])
+    out.append(["lost-worker", [(n, k) for n in (2, 3) for k in (2, 3)]])
     out.append(["histories", 3 if tier == "quick" else 4])
     out.append(["preprocess", 2 if tier == "quick" else 3])
     out.append(["content", tier])
@@ -513,6 +567,21 @@ def run_shard(shard):
         res.evals += 1
         res.outcomes[("faults", len(shard[1]))] += 1
         res.sample({"kind": "faults", "n": 2, "k": 2}, 1)
+    elif shard[0] == "lost-worker":
+        import concurrent.futures  # pylint: disable=import-outside-toplevel
+        cases = [(n, k, -1, "none") for n, k in shard[1]]       # the healthy control: must return the list, and quickly
+        cases += [(n, k, position, kind) for n, k in shard[1] for position in range(n) for kind in ("killed", "exit")]
+        with concurrent.futures.ThreadPoolExecutor(max_workers=8) as executor:
+            verdicts = list(executor.map(lambda c: check_lost_worker(*c), cases))
+        for (n, k, position, kind), fails in zip(cases, verdicts):
+            res.evals += 1
+            res.nontrivial += position >= 0
+            res.buckets["faults:worker-lost" if position >= 0 else "faults:lost-worker-control"] += 1
+            res.outcomes[("lost-worker", kind, tuple(c for c, _ in fails))] += 1
+            case = {"kind": "lost-worker", "n": n, "k": k, "position": position, "how": kind}
+            for clause, detail in fails:
+                res.fail(case, clause, detail)
+        res.sample({"kind": "lost-worker", "n": 2, "k": 2, "position": 0, "how": "killed"}, 1)
     elif shard[0] == "preprocess":
         size = shard[1]
         lists = [list(combo) for k in range(1, size + 1) for combo in itertools.product(range(len(RAW_RECORDS)), repeat=k)
@@ -567,6 +636,8 @@ def finalize(cov, tier):
 def replay(case):
     if case["kind"] == "schedules":
         return check_schedules(case["n"], case["k"], case["bound"])[0]
+    if case["kind"] == "lost-worker":
+        return check_lost_worker(case["n"], case["k"], case["position"], case["how"])
     if case["kind"] == "faults":
         return check_faults(case["n"], case["k"]) + check_timeout(case["n"], case["k"])
     if case["kind"] == "preprocess":
